@@ -1,2 +1,31 @@
-(** C05 property theorems (proofs in Proofs_C05.v). *)
-From AwkV Require Import Layout Valid Types AtAxis Ops_Struct Ops_Flatten.
+(** C05 property theorems (proofs in Proofs_C05.v; the refinement of the layout-level models to
+    these specifications is in Proofs_AtAxis.v when present). *)
+From AwkV Require Import Layout Ops_Struct Ops_Flatten Ops_Getitem Proofs_C05.
+
+(* unflatten(flatten(x), num(x)) reproduces x when no list is missing *)
+Theorem unflatten_flatten : forall (ls : list (list value)), regroup (map zlen ls) (concat ls) = ls.
+Proof. exact (@regroup_concat value). Qed.
+Print Assumptions unflatten_flatten.
+
+Theorem flatten_concatenates_in_order : forall l ls,
+  mapM elems_of l = Ok ls -> flat_f TUnk l = Ok (VList (concat ls)).
+Proof. exact flatten_is_concat. Qed.
+Print Assumptions flatten_concatenates_in_order.
+
+Theorem missing_list_contributes_nothing : forall l, elems_of VNone = Ok (@nil value) /\ elems_of (VList l) = Ok l.
+Proof. exact flatten_skips_missing. Qed.
+Print Assumptions missing_list_contributes_nothing.
+
+Theorem num_gives_lengths : forall t l, num_f t l = Ok (VNum (DZ (zlen l))).
+Proof. exact num_is_length. Qed.
+Print Assumptions num_gives_lengths.
+
+Theorem local_index_counts_from_zero : forall t l,
+  localindex_f t l = Ok (VList (map (fun i => VNum (DZ i)) (iota (zlen l)))).
+Proof. exact localindex_is_iota. Qed.
+Print Assumptions local_index_counts_from_zero.
+
+Theorem offsets_are_running_sums : forall s lens,
+  length (offsets_from s lens) = S (length lens) /\ last (offsets_from s lens) 0 = s + sumZ lens.
+Proof. exact (fun s lens => conj (offsets_from_length s lens) (offsets_from_last s lens)). Qed.
+Print Assumptions offsets_are_running_sums.
